@@ -8,10 +8,13 @@ GAP_TEXTS = [("os_name >= ''", None), ("os_name < ''", 'F'), ("os_name <= 'a' or
              ("os_name > 'a' and os_name < 'a\x00'", 'F'), ("sys_platform != '' or sys_platform <= ''", None)]
 
 
-def identities(ctx, sess, regs):
+def identities(ctx, sess, regs, fam=None):
     """(lhs reg, rhs reg, law) built through different API paths; both sides denote the same function"""
     rng = ctx.rng
     a, b, c = rng.choice(regs), rng.choice(regs), rng.choice(regs)
+    if fam and rng.random() < .4:
+        # operands over the same few boolean variables, in both polarities
+        a, b, c = rng.choice(fam), rng.choice(fam), rng.choice(fam)
     op = lambda k, *xs: sess.op(k, *xs)[0]
     law = rng.choice(['comm-and', 'comm-or', 'assoc-and', 'assoc-or', 'distr', 'demorgan', 'dneg', 'absorb-or', 'absorb-and',
                       'idem', 'excl-middle', 'contradiction', 'distr2', 'consensus'])
@@ -48,8 +51,8 @@ def identities(ctx, sess, regs):
     return l, r, law
 
 
-def compare(ctx, sess, keys, x, y, how):
-    """impl == vs exact semantic equality of the two dumps"""
+def compare(ctx, sess, keys, x, y, how, same=False):
+    """impl == vs exact semantic equality of the two dumps; same: the two sides were built by a boolean law and must denote one function"""
     rel = sess.ask(['rel', str(x), str(y)])
     if rel[0] != 'ok':
         ctx.failure('==/cmp/hash panicked', how)
@@ -66,6 +69,11 @@ def compare(ctx, sess, keys, x, y, how):
         ctx.count('pair:unsupported')
         return
     ctx.count('pair:%s' % ('equal' if d_real is None else 'different'))
+    if same and d_real is not None:
+        eo = semantics.env_of_path(keys, d_real, markers.DEFAULT_ENV)
+        ctx.failure('the two sides of a boolean law, built with and / or / negate, denote different functions (and are %s)' % ('==' if eq else 'not =='),
+                    dict(how, distinguishing=str(eo)))
+        return
     if eq and d_real is not None:
         eo = semantics.env_of_path(keys, d_real, markers.DEFAULT_ENV)
         ctx.failure('markers compare equal but denote different functions', dict(how, distinguishing=str(eo)))
@@ -91,9 +99,22 @@ def run(ctx):
         keys = markers.Keys(sess.p)
         regs, _ = c02.build_history(ctx, sess, 100 if quick else 250, 150 if quick else 500, battery=(rd == 0))
         c20.extend_history(ctx, sess, regs, 60 if quick else 200)
+        fam = [r for r in (sess.parse(t)[0] for t in markers.boolean_family(ctx.rng)) if r is not None]
+        # near misses on one variable: same key, same operator, another value - never ==, never Equal
+        NEAR = [("'nt' in os_name", "'posix' in os_name"), ("'nt' not in os_name", "'posix' not in os_name"), ("os_name in 'posix nt'", "os_name in 'linux'"),
+                ("os_name not in 'posix nt'", "os_name not in 'nt posix'"), ("extra == 'a'", "extra == 'b'"), ("extra != 'a'", "extra != 'b'"),
+                ("'win' in sys_platform", "'win' in os_name"), ("os_name == 'a'", "os_name == 'b'"), ("python_version >= '3.8'", "python_version >= '3.9'"),
+                ("implementation_version == '3.8'", "python_full_version == '3.8'")]
+        for ta, tb in NEAR:
+            for wrap in ('%s', "%s and sys_platform == 'x'", "sys_platform == 'x' or %s"):
+                x, y = sess.parse(wrap % ta)[0], sess.parse(wrap % tb)[0]
+                if x is None or y is None:
+                    continue
+                ctx.evaluations += 1
+                compare(ctx, sess, keys, x, y, {'lhs': {'parse': wrap % ta}, 'rhs': {'parse': wrap % tb}})
         for _ in range(350 if quick else 1500):
             try:
-                x, y, law = identities(ctx, sess, regs)
+                x, y, law = identities(ctx, sess, regs, fam)
             except Exception as e:
                 ctx.failure('operation failed while building an identity: %r' % e, {})
                 continue
@@ -103,7 +124,7 @@ def run(ctx):
             ctx.count('law:' + law)
             ctx.evaluations += 1
             how = {'law': law, 'lhs': markers.describe(sess, x), 'rhs': markers.describe(sess, y)}
-            compare(ctx, sess, keys, x, y, how)
+            compare(ctx, sess, keys, x, y, how, same=True)
             try:
                 if sess.model(x) not in ('T', 'F'):
                     ctx.nontrivial((law, dump(sess.model(x))))
